@@ -32,7 +32,7 @@ def step_check(proj, i, obs):
         rb = mb.seen.get("t", {}).get("f")
         if rb and rb[0] == "c":
             out.append(e1prop.stat("builds-with-recorded-ifcreate:" + ("path-now-exists" if m.exists("f") else "path-still-absent")))
-        if w == "ifcreate-raw" and m.exists("f") and "t" in ran:
+        if w.startswith("ifcreate-raw") and m.exists("f") and "t" in ran:
             out.append(e1prop.stat("ifcreate-on-existing-path-attempts"))
             if obs["rc"] == 0:
                 out.append(({"kind": "ifcreate-accepted-existing-path", "world": w}, {"ran": ran}))
@@ -51,7 +51,7 @@ def plan(tier):
     W = worlds.curated()
     q = tier == "quick"
     return [(W["ifcreate"], alphabet_ifc, 4 if q else 6), (W["ifcreate-raw"], alphabet_ifc, 4 if q else 6),
-            (W["ifcreate-link"], alphabet_ifc, 4 if q else 6),
+            (W["ifcreate-link"], alphabet_ifc, 4 if q else 6), (W["ifcreate-raw-dots"], alphabet_ifc, 3 if q else 5),
             (W["always"], alphabet_alw, 3 if q else 5), (W["always3"], alphabet_alw, 3 if q else 5)]
 
 
